@@ -8,6 +8,8 @@ import Driver.C16
 import Driver.C20
 import Driver.C12
 import Driver.C05
+import Driver.Admission
+import Driver.ExitRace
 
 def main (args : List String) : IO UInt32 := do
   match args with
@@ -24,6 +26,8 @@ def main (args : List String) : IO UInt32 := do
       | "c20" => Driver.C20.run ops impl
       | "c12" => Driver.C12.run ops impl
       | "c05" => Driver.C05.run ops impl
+      | "admission" => Driver.Admission.run ops impl
+      | "exitrace" => Driver.ExitRace.run ops impl
       | _ => do IO.eprintln s!"unknown model {model}"; return 2
     return (if t.diffs == 0 && t.oracleFails == 0 then 0 else 1)
   | _ =>
